@@ -227,6 +227,19 @@ def run(model: Model, rep: Report) -> None:
     cache_writers_rule(model, rep, "C12-R6")
     # ---------------------------------------------------------------- R7
     _memo_purity(model, rep)
+    # ---------------------------------------------------------------- R8
+    r8 = rep.rule("C12-R8", "DEPEND", "the font cache is keyed by object numbers only: a font dictionary written inline in a resource dictionary has no document-wide identity and is not cached", 2)
+    ir = model.func("pdfminer.pdfinterp.PDFPageInterpreter.init_resources")
+    gf_calls = [c for c in walk_no_nested(ir.node) if isinstance(c, ast.Call) and (dotted(c.func) or "").endswith("get_font")]
+    if not gf_calls or not isinstance(gf_calls[0].args[0], ast.Name):
+        raise AnchorMissing("init_resources: get_font(objid, spec) call not found")
+    kv = gf_calls[0].args[0].id
+    vals = [n.value for n in walk_no_nested(ir.node) if isinstance(n, ast.Assign) and any(isinstance(t, ast.Name) and t.id == kv for t in n.targets)]
+    badv = [v for v in vals if not ((isinstance(v, ast.Constant) and v.value is None) or (isinstance(v, ast.Attribute) and v.attr == "objid"))]
+    r8.check(bool(vals) and not badv, site(ir, badv[0]) if badv else site(ir), ir.qualname, f"`{kv}` is None or the object number of the reference the font was reached through", why=f"`{kv} = {unparse(badv[0])}`: a resource name (like /F1) is local to one resource dictionary; two pages defining /F1 inline and differently would share whichever font was built first, so a page extracted alone differs from the same page extracted after another" if badv else "no assignment found")
+    gf = model.func("pdfminer.pdfinterp.PDFResourceManager.get_font")
+    sgf = "".join(unparse(gf.node).split())
+    r8.check("ifobjidandobjidinself._cached_fonts:" in sgf and "ifobjidandself.caching:self._cached_fonts[objid]=font" in sgf, site(gf), gf.qualname, "get_font consults and fills the cache only for a truthy object number", why="cache guard changed")
 
 
 def _has_instance_state_writers(model: Model, cls: str) -> bool:
@@ -521,8 +534,12 @@ def doc_mutation_rule(model: Model, rep: Report, rid: str, only: Optional[Tuple[
 
 
 def _memo_purity(model: Model, rep: Report) -> None:
-    """C12-R7: what a process-wide memo table stores under a key is a function of that key (and of immutable globals) only."""
-    r7 = rep.rule("C12-R7", "DEPEND", "memo tables: the value stored under a key depends on the key alone - not on other arguments of the call that happened to fill the table", 2)
+    memo_purity_rule(model, rep, "C12-R7")
+
+
+def memo_purity_rule(model: Model, rep: Report, rid: str) -> None:
+    """What a process-wide memo table stores under a key is a function of that key (and of immutable globals) only."""
+    r7 = rep.rule(rid, "DEPEND", "memo tables: the value stored under a key depends on the key alone - not on other arguments of the call that happened to fill the table", 2)
     import builtins
 
     for (container, fq), _reason in sorted(ALLOWED_WRITES.items()):
